@@ -63,6 +63,9 @@ def Ctx.acts (c : Ctx) : List Act := c.tour.map (·.act)
 def Ctx.zero (c : Ctx) : List Int := c.cap.map (fun _ => 0)
 def demOr (z : List Int) (d : Option Dem) : Dem := d.getD ⟨z, z, z, z⟩
 def Ctx.dems (c : Ctx) : List Dem := c.tour.map (fun a => demOr c.zero a.dem)
+/-- demands of all activities after the start: jobs, then the arrival activity (no demand) if any -/
+def Ctx.allDems (c : Ctx) : List Dem :=
+  c.dems ++ (if c.veh.endAt.isSome then [demOr c.zero none] else [])
 
 /-! ## time -/
 
@@ -81,13 +84,14 @@ def evalTime (t : Nat → Nat → Int) (v : Veh) (jobs : List Act) (i : Nat) (x 
   let nextLate : Bool := match rest with
     | nx :: _ => tooLate nx.s
     | [] => false
-  if tooLate prevS || tooLate x.s || nextLate then .fail
+  if tooLate prevS || nextLate then .fail
+  else if tooLate x.s then .skip     -- specific to the target's window: other windows/places may fit
   else
     match rest with
     | [] =>
-      -- open end: only the target's own window binds
+      -- open end: only the target's own window binds (window specific: `skip`, not `fail`)
       let L := x.e
-      if p.2 + t p.1 x.loc > L then .fail
+      if p.2 + t p.1 x.loc > L then .skip
       else if x.s > L then .skip
       else .ok
     | nx :: _ =>
@@ -122,7 +126,7 @@ def capViolationAt (c : Ctx) (i : Nat) (x : Option Dem) (stopped : Bool) : Optio
   match x with
   | none => none
   | some d =>
-    let (cur, past, fut) := loadCaches c.zero c.dems
+    let (cur, past, fut) := loadCaches c.zero c.allDems
     hasDemandViolation c.cap (past.getD i c.zero) (fut.getD i c.zero) (cur.getD i c.zero) d stopped
 
 /-! ## both constraints, in feature order -/
